@@ -43,7 +43,9 @@ def model_summary(shx):
     rest = []
     for r in shx.restraints:
         rest.append((r.name, tuple(x.upper() for x in r.atoms), r.residue_class.upper() if r.residue_class else '', tuple(r.residue_number)))
-    return {'atoms': atoms, 'instr': instr, 'restraints': rest, 'hklf': shx.hklf is not None, 'end': shx.end,
+    views = {'has_element': [shx.sfac_table.has_element(e) for e in shx.sfac_table.elements_list], 'sum_formula': shx.sum_formula.upper(),
+             'sum_formula_exact': shx.sum_formula_exact.upper(), 'elements_of_atoms': [a.element.upper() for a in shx.atoms.all_atoms]}
+    return {'atoms': atoms, 'instr': instr, 'restraints': rest, 'hklf': shx.hklf is not None, 'end': shx.end, 'views': views,
             'fvars': [round(float(x.fvar_value), 9) for x in shx.fvars.fvars], 'sfac': [e.upper() for e in shx.sfac_table.elements_list]}
 
 
@@ -86,6 +88,13 @@ def run(ctx):
         got = [(a[0], a[1], a[2], a[9]) for a in base['atoms']]
         if st0 != 'ok' or in0 or got != exp:
             common.add_violation(ctx, 'plain rendering of a valid file is not read as constructed', {'text': plain}, str(exp)[:300], str(got)[:300])
+            continue
+        present = set(a['element'].upper() for a in gf['atoms'] if not a['qpeak'])
+        exact = dict((k.upper(), v) for k, v in shx0.sum_formula_exact_as_dict().items())
+        els_up = [e.upper() for e in gf['elements']]
+        if not all(base['views']['has_element']) or sorted(exact) != sorted(els_up) or any((abs(exact[e]) > 1e-9) != (e in present) for e in els_up if e in exact):
+            common.add_violation(ctx, 'the element table of a valid file (symbols in any case, explicit scattering factors) does not know its own elements',
+                                 {'text': plain}, {'elements': els_up, 'with_atoms': sorted(present)}, {'has_element': base['views']['has_element'], 'exact': exact})
             continue
         exp_r = expected_restraint_residues(gf, shx0)
         got_r = [(r[0].upper(), sorted(set(r[3]))) for r in base['restraints']]
